@@ -95,7 +95,7 @@ def run(tier):
         rep.ob("discipline", "trigger set", info["trig"] == {"M"}, "find() stops at class %s; must stop exactly at characters with a width mapping" % sorted(info["trig"]), b.where(), key="discipline|trigger")
         rep.ob("discipline", "no mapped character ⇒ input returned unchanged", info["none_result"] == ("Ok", ("input",)) and not info["none_events"], "returns %s" % (info["none_result"],), b.where())
         aut = info["aut"]
-        rep.ob("discipline", "mapping loop is stateless", aut.nstates() == 1, "%d loop states: the result for a character depends on what precedes it" % aut.nstates(), b.where(), key="discipline|stateless")
+        rep.ob("discipline", "mapping loop is stateless", fcd.behavioural_states(aut, ALPHA) == 1, "%d behaviourally different loop states: the result for a character depends on what precedes it" % fcd.behavioural_states(aut, ALPHA), b.where(), key="discipline|stateless")
         try:
             per, q0, end_ev, end_res = fcd.letter_outputs(aut, ALPHA)
             want = {"M": [("push", "mapped", 0, "M")], "O": [("push", "char", 0, "O")]}
